@@ -284,6 +284,8 @@ func init() {
 			checkWitnessAll(c, "R1.4")
 			// every replica accepts exactly the commits the others accept: the signature check and its inputs (shared with C08)
 			checkPackVerification(c)
+			// … and refuses exactly the histories the others refuse (shared with C03)
+			checkReadGuards(c)
 			// what a replica shows and builds its next edit on is what merge hands back and what the
 			// cache takes over: both must be the merged state (shared with C02/C11)
 			ruleDocsMerge(c)
@@ -398,6 +400,12 @@ func checkReadGuards(c *Ctx) {
 			}
 			if !(fieldOfPack(sub.X, "EditTime", "self") && fieldOfPack(sub.Y, "EditTime", "parent")) {
 				why = "hop test does not subtract the parent's edit time from the child's"
+				continue
+			}
+			if (g.Op == token.GTR || g.Op == token.GEQ) && k > 0 && k < 1000000 {
+				// the edit clock is shared by every entity of the repository: the distance between two commits of one entity is the
+				// repository's whole activity in between. The bound exists against roll-over attacks, not to limit that activity.
+				why = fmt.Sprintf("the hop limit is %d: an entity left alone while %d other commits are made in the repository becomes unreadable for its own author (and refused by every replica) at its next edit; the documented bound is 1,000,000", k, k)
 				continue
 			}
 			if (g.Op == token.GTR || g.Op == token.GEQ) && k > 0 {
